@@ -351,6 +351,8 @@ func e13RunCtx(r *Res, d e13desc, fireStep, firePoint, fireCtx int) (int, int) {
 		switch {
 		case rr.err != nil && !errors.Is(rr.err, kcache.ErrNotRunning):
 			r.V("C12", "racing-call-bad-error", "%s racing with shutdown returned %v", rr.what, rr.err)
+		case rr.err == nil && rr.done == nil:
+			// (a call that returns no object, e.g. Refilter: returning is all that is asked)
 		case rr.err == nil:
 			r.Add("racing-calls-got-object", 1)
 			if !waitCh(rr.done, virtBound) {
